@@ -126,5 +126,18 @@ theorem canon_eq_of_eqv (g1 g2 : Graph E) (h1 : g1.NamesDistinct) (h2 : g2.Names
   exact eq_of_key_eq (fun p : Node E × List (Node E × E) => p.1.key) _ (by rw [hk]; exact h1.1) x hx y hy
     (keyLe_antisymm _ _ hxy hyx)
 
+theorem stmts_canon_eq (xs ys : List (Stmt E)) (h : StmtsSame xs ys)
+    (hc : ∀ a b : Stmt E, a.SameContent b → a.canon = b.canon) : xs.map Stmt.canon = ys.map Stmt.canon := by
+  induction h with
+  | nil => rfl
+  | cons hab _ ih => simp [hc _ _ hab, ih]
+
+theorem Stmt.canon_eq_of_sameContent (a b : Stmt E) (h : a.SameContent b) : a.canon = b.canon := by
+  cases a <;> cases b <;> simp only [Stmt.SameContent] at h
+  · obtain ⟨h1, h2⟩ := h; simp [Stmt.canon, h1, h2]
+  · obtain ⟨he, h1, h2⟩ := h
+    simp only [CompSys.eqv, Bool.and_eq_true, decide_eq_true_eq] at he
+    simp [Stmt.canon, CompSys.canon, canon_eq_of_eqv _ _ h1 h2 he.2, he.1]
+
 end
 end Pharmpy.C12
